@@ -62,7 +62,7 @@ def main():
         "documented threshold rule for every threshold configuration. Every state is concretised into one BAM per sample "
         "and run through write_vcf_block for every read-filter configuration and every threshold class. "
         "The 'boundary' instance runs --min-ind 0 (population thresholds only) and n_samples+1 against every zero / non-zero "
-        "combination of the other thresholds on tables of <= 6 reads; the 'deep' instances start the same counter machine from "
+        "combination of the other thresholds on tables of <= 5 reads; the 'deep' instances start the same counter machine from "
         "a seed table of 30-60 reads per sample (BulkPile, tied to the single-read step by SeedIsPile) in which two ALT "
         "alleles have near-tied, unequal exact mean frequencies, with thresholds at 0 and exactly on observed values. "
         "Non-trivial = state with >= 2 alignments."
